@@ -19,7 +19,7 @@ RULE = ("exhaustive over nested dicts with keys {a,b}: quick = all ordered pairs
         "'greatest lower bound' check against all 81 candidates) plus all triples of the 36 "
         "depth<=1 dicts with leaves {0,1,'',{},[]}; thorough = all ordered pairs of the 3025 "
         "dicts of depth<=2 with leaves {0,1,'',None,{},[]}, all pairs (first component every "
-        "8th dict, seed-rotated) of the 7921 dicts with all 8 leaves, all triples of the 81 "
+        "12th dict, seed-rotated) of the 7921 dicts with all 8 leaves, all triples of the 81 "
         "8-leaf depth<=1 dicts; every pair at level in {-1,0,1,2}. Not exhaustive, seeded: "
         "random pairs/triples of depth<=3 (independent and locally perturbed partners) at "
         "level in {-1,0,1,2,3}; real users (Split._get_context, Zip._create_context, "
@@ -122,7 +122,7 @@ def cases(tier, seed):
         pair_doms = [("q3d2", 1, 0), ("l8d1", 1, 0)]
         triple_dom = "q5d1"
     else:
-        pair_doms = [("t6d2", 1, 0), ("l8d1", 1, 0), ("l8d2", 8, seed % 8)]
+        pair_doms = [("t6d2", 1, 0), ("l8d1", 1, 0), ("l8d2", 12, seed % 12)]
         triple_dom = "l8d1"
     for dom, stride, off in pair_doms:
         leaves, depth = DOMS[dom]
